@@ -4,7 +4,8 @@ Shares specs/ClientLoop and harness/clientloop.py with C04 (see c04.py); this ch
 
 Leg M   : TLC on ClientLoop.c05.{quick,thorough}.cfg — warm-up iterations 0..2 x iterations 1..3, warm-up period 0..3 x
           time period 1..4 ticks, unthrottled / deterministic / Poisson, 1-2 clients, ramp-up for the second client of two,
-          a one-client task inside a two-client parallel element; every service-time sequence over {0,1,3}.
+          a one-client task inside a two-client parallel element; every service-time sequence over {0,1,3}; at most one failing request per
+          run, either raising (weight 0) or RETURNED by the runner as success=False with a weight (kind "soft": the pacing follows that weight).
 Leg S2C / C2S : as C04, other seeds; element runs (real Allocator -> ClientAllocations -> AsyncIoAdapter, see c04.py) carry the
           ramp-up clause into `parallel` elements with several sub-tasks: client index and total are derived in TLA+ from the
           element's declaration (Placement), not from the code's TaskAllocation.  Tasks whose RUNNER exposes the optional
@@ -30,8 +31,10 @@ def run(ctx, out):
         "the instant at which a request is DECIDED is the instant at which the schedule yields it (observed by a transparent proxy around the real ScheduleHandle); "
         "a time-based task must not decide a request once warmup-time-period + time-period have elapsed since the client started the task; a request decided at or after the end of the warm-up period must be normal, "
         "one that returned before it must be warm-up, the one in between may be either",
-        "the weight in 'weight*C/T apart' is the weight, in the unit of the target throughput, of the latest successful request (a runner unit differing from an ops/s target counts as 1 op); "
-        "until the first successful request the task runs unthrottled (all scheduled times 0): named in the model, no spacing demanded",
+        "the weight in 'weight*C/T apart' is the weight, in the unit of the target throughput, of the latest request that reported a weight > 0 - successful or not: a runner that RETURNS success=False with a weight (bulk with item errors, "
+        "script outcome 'soft') counts like a successful one, a request that raised (API / transport error) reports weight 0 and leaves the pacing as it was "
+        "(a runner unit differing from an ops/s target counts as 1 op); "
+        "until the first request with a weight > 0 the task runs unthrottled (all scheduled times 0): named in the model, no spacing demanded",
         "ramp-up is only combined with time-based tasks and ramp-up <= warm-up period (enforced by the track loader); iteration counts are exact unless the task is completed externally (then: at most) or aborted by the unit check",
         "driver-reported progress (Driver.update_progress_message): judged per task - within [0,100], never decreasing within one task, never above the most advanced sample of that task the driver has received; "
         "the executed histories keep the clients of a task in lockstep (equal speed; workers and the driver wake up at unrelated moments): with clients of DIFFERENT speed the code as it is "
@@ -58,7 +61,7 @@ def run(ctx, out):
         n_edge=0,
         n_elem=120 if ctx.quick else 1200,
     )
-    for key in ("runs_with_rampup_delay_in_multi_subtask_parallel", "runs_with_completion_runner_not_completing", "runs_completed_by_runner", "runs_iteration_based", "runs_time_based", "warmup_requests", "runs_with_straddling_warmup_request", "runs_with_rampup_delay", "runs_completed_externally", "deterministic_gaps", "weight_changes"):
+    for key in ("runs_with_rampup_delay_in_multi_subtask_parallel", "runs_with_completion_runner_not_completing", "runs_completed_by_runner", "runs_iteration_based", "runs_time_based", "warmup_requests", "runs_with_straddling_warmup_request", "runs_with_rampup_delay", "runs_completed_externally", "deterministic_gaps", "weight_changes", "failed_requests_reporting_a_weight", "throttled_runs_first_weight_from_a_failed_request"):
         if not cov[key]:
             out.vacuous.append("no executed run exercised: " + key)
 
